@@ -610,3 +610,63 @@ func IntersectEq[E any](f func(a, b []E) []E, eq func(a, b E) bool) OpFunc {
 		return Bool(ok) + ";"
 	}
 }
+
+// ---- consistency of sort / min / max with the emitted Compare (element types with their own Compare)
+
+func sameMultiset[E any](xs, ys []E) bool {
+	a, b := strsOf(xs, false), strsOf(ys, false)
+	sort.Strings(a)
+	sort.Strings(b)
+	return strings.Join(a, ",") == strings.Join(b, ",") && len(a) == len(b)
+}
+
+// SortCmp: the result is a permutation of the input and no later element precedes an earlier one under cmp
+func SortCmp[E any](f func([]E) []E, cmp func(a, b E) int) OpFunc {
+	return func(c *Ctx, a []*SExp) string {
+		preViews[E](c, a[:1])
+		l := build[[]E](c, a[0])
+		orig := append([]E(nil), l...)
+		out := f(l)
+		ok := sameMultiset(orig, out)
+		for i := range out {
+			for j := i + 1; j < len(out); j++ {
+				ok = ok && cmp(out[j], out[i]) >= 0
+			}
+		}
+		return Bool(ok) + ";"
+	}
+}
+
+// MinCmp: (dir = 1: min, dir = -1: max) the result is an element of the list that no element precedes /
+// follows under cmp; the default for an empty list
+func MinCmp[E any](f func([]E, E) E, cmp func(a, b E) int, dir int) OpFunc {
+	return func(c *Ctx, a []*SExp) string {
+		preViews[E](c, a[:1], a[1])
+		l := build[[]E](c, a[0])
+		d := build[E](c, a[1])
+		m := f(l, d)
+		if len(l) == 0 {
+			return Bool(same(m, d)) + ";"
+		}
+		ok := false
+		for _, y := range l {
+			ok = ok || same(y, m)
+		}
+		for _, y := range l {
+			ok = ok && dir*cmp(y, m) >= 0
+		}
+		return Bool(ok) + ";"
+	}
+}
+
+// Min2Cmp: the result is one of the two arguments and the other one does not precede / follow it
+func Min2Cmp[E any](f func(E, E) E, cmp func(a, b E) int, dir int) OpFunc {
+	return func(c *Ctx, a []*SExp) string {
+		preViews[E](c, nil, a[0], a[1])
+		x := build[E](c, a[0])
+		y := build[E](c, a[1])
+		m := f(x, y)
+		ok := (same(m, x) && dir*cmp(y, m) >= 0) || (same(m, y) && dir*cmp(x, m) >= 0)
+		return Bool(ok) + ";"
+	}
+}
